@@ -200,9 +200,19 @@ def gen_events(seed: int, n: int) -> list:
                 d = Duration._ctor(days=rnd.randint(-8_000_000, 8_000_000), nano_of_day=rnd.choice([0, 1, NPD - 1, rnd.randrange(NPD)]))
             op = rnd.choice(["i_plus", "i_minus"])
             route = rnd.randrange(3)
+            if op == "i_plus" and rnd.random() < 0.35:
+                # the unit routes: plus_nanoseconds for any amount, plus_ticks when the amount is a whole number of ticks
+                dns = d.to_nanoseconds()
+                if rnd.random() < 0.5:
+                    dns -= dns % 100
+                    d = Duration._ctor(days=dns // NPD, nano_of_day=dns % NPD)
+                    route = 4
+                else:
+                    route = 3
             ev = {"op": op, "a": T3I(a), "d": T3D(d), "route": route}
             if op == "i_plus":
-                f = [lambda: a + d, lambda: a.plus(d), lambda: Instant.add(a, d)][route]
+                f = [lambda: a + d, lambda: a.plus(d), lambda: Instant.add(a, d), lambda: a.plus_nanoseconds(d.to_nanoseconds()),
+                     lambda: a.plus_ticks(d.to_nanoseconds() // 100)][route]
             else:
                 f = [lambda: a - d, lambda: a.minus(d), lambda: Instant.subtract(a, d)][route]
             evs.append(_res(ev, f, T3I))
